@@ -22,7 +22,7 @@ CONTRACTS = [
     'utils.ConstantTimeCmp(a,b,l) = sign(BE(a[:l]) - BE(b[:l])), panics for nil, index panic if shorter than l  [C20]',
     'internal.ScalarBaseMult(k): error unless len(k)==32, else the point [BE(k) mod n]G  [C14]',
     'internal.ScalarMixedMult_Unsafe(g,P,s): both scalars indexed as 32 bytes (shorter -> index panic), result [g]G+[s]P  [C14]',
-    'SM2Point.GetAffineX_Unsafe: affine x in [0,p), 0 for the point at infinity; Bytes_Unsafe: 04||x||y or the 1-byte infinity encoding  [C15]',
+    'SM2Point.IsInfinity: true exactly for the neutral element; GetAffineX_Unsafe: affine x in [0,p), 0 for the point at infinity; Bytes_Unsafe: 04||x||y or the 1-byte infinity encoding  [C15]',
     'SM2Point.SetBytes(04||x||y): succeeds iff x,y < p and on the curve; every such point is [u]G for a unique u in [1,n-1] (prime order group, trusted)  [C15]',
     'fiat.SM2ScalarElement SetBytes/Invert/ToBigInt: value < n else error; inverse mod n (0 for 0)  [C16]',
     'fiat.SM2Element SetBytes/Add/Sub/Mul/Square/Equal: arithmetic mod p on canonical values, decode rejects >= p  [C16]',
@@ -103,9 +103,15 @@ def int_of_prefix(e, s, l, what):
 def install(eng, max_candidates=3, reader_modes='full'):
     reg = eng._reg if hasattr(eng, '_reg') else None
     I = eng.intercepts
-    eng.known_points = {}
-    eng.sm2_log = []
-    eng.inv_facts = []
+    def reset(e):
+        e.known_points = {}
+        e.sm2_log = []
+        e.inv_facts = []
+        e.hash_memo = {}
+    reset(eng)
+    if not hasattr(eng, 'path_reset_hooks'):
+        eng.path_reset_hooks = []
+    eng.path_reset_hooks.append(reset)
 
     def reg(name, fn):
         def wrap(e, args, ins, fn=fn, name=name):
@@ -163,6 +169,11 @@ def install(eng, max_candidates=3, reader_modes='full'):
     def new_sm2_point(e, a, ins):
         return new_point(e, 0)
     reg(INT + '.NewSM2Point', new_sm2_point)
+
+    def is_infinity(e, a, ins):
+        pt = getpoint(e, a[0])
+        return (pt.dl == 0) if isinstance(pt.dl, int) else e.branch(pt.dl == 0)
+    reg('(*%s.SM2Point).IsInfinity' % INT, is_infinity)
 
     def affine_x(e, a, ins):
         pt = getpoint(e, a[0])
